@@ -1,5 +1,6 @@
 """C19 -- bulk export is faithful, ordered and total over documented attributes."""
 
+import collections
 import csv
 import os
 import re
@@ -299,11 +300,24 @@ def check_csv(case, d, ctx, pytrs, tmp):
                       "back from the file")
 
 
+_SRC = collections.namedtuple('Src', 'doc page')
+
+
+def mk_source(spec):
+    """Source tags are arbitrary identifiers: str, int, tuple, list, or a
+    named tuple such as (document, page)."""
+    if isinstance(spec, dict):
+        kind, items = next(iter(spec.items()))
+        return (tuple(items) if kind == 'tuple' else list(items)
+                if kind == 'list' else _SRC(*items))
+    return spec
+
+
 def run_case(case, ctx, pytrs, tmp):
     attrs = case['attrs']
     with ctx.guard(case):
         d = pytrs.PLSSDesc(case['text'], config=case['cfg'] or None,
-                           source=case.get('source'))
+                           source=mk_source(case.get('source')))
         listy = any(isinstance(getattr(d.tracts[0], a, None),
                                (list, tuple, dict)) for a in attrs) \
             if len(d.tracts) else False
@@ -337,7 +351,9 @@ def gen_case(rng, pytrs, attrs=None):
             'writer': writer, 'mode': rng.choice(['w', 'w', 'a']),
             'existing': rng.random() < 0.4, 'nice': nice,
             'holder': rng.choice(['PLSSDesc', 'TractList']),
-            'source': rng.choice([None, 'doc-17', 5])}
+            'source': rng.choice([None, 'doc-17', 5, {'tuple': ['doc', 3]},
+                                  {'list': ['a', 'b']},
+                                  {'namedtuple': ['deed', 12]}])}
     if writer == 'TractWriter':
         case['plus_cols'] = rng.choice([None, None, ['extra'], ['a', 'b']])
         case['uid'] = rng.choice([None, None, 1, 27])
